@@ -86,3 +86,16 @@ func (r *R) Bytes(p []byte) {
 
 // Pick returns one of the given ints.
 func (r *R) Pick(v ...int) int { return v[r.Intn(len(v))] }
+
+// Perm returns a permutation of 0..n-1.
+func (r *R) Perm(n int) []int {
+	p := make([]int, n)
+	for i := range p {
+		p[i] = i
+	}
+	for i := n - 1; i > 0; i-- {
+		j := r.Intn(i + 1)
+		p[i], p[j] = p[j], p[i]
+	}
+	return p
+}
